@@ -31,7 +31,8 @@ ASSUMPTIONS = [
 
 def _region_strategy(tier):
     sz = G.sizes(1e-3, 1e6)
-    leaf = G.simple_pixel(sz)
+    # sizes over nine decades INDEPENDENTLY: axis ratios up to 1:1e9
+    leaf = G.simple_pixel(sz, max_ratio=1e9)
     small_leaf = G.simple_pixel(G.sizes(0.5, 50.0), cmode='near')
     return st.one_of(leaf, leaf, leaf, leaf,
                      G.grid_polygon(),
